@@ -170,7 +170,7 @@ def _q5c(ea, eb, ec, ja, jb, hs, ma, mb, mc):
         bstate, stale = _oracle(pr, be, abstract, chg)
         cone, st, pre, sub = P.plan(pr.n, pr.deps, stale, bstate, P.endpoints(pr.n, pr.deps))
         want_sub = sorted(pr.names[i] for i in sub)
-        before = w.vfs.snapshot()
+        before = w.view()
         tracked_before = pr.read_json(w.tracked_path())
         hashes_before = pr.read_json(w.hashes_path())
         table = w.status_table()
@@ -187,13 +187,11 @@ def _q5c(ea, eb, ec, ja, jb, hs, ma, mb, mc):
         mut = w.sim.mutating_log() if w.sim else [r for r in w.pool.requests if r.get("__kind__") in ("enqueue_task", "cancel_task")]
         if mut:
             return "a preview talked to the scheduler: %s" % (mut[:2],)
-        after = w.vfs.snapshot()
+        after = w.view()
         state_files = (w.tracked_path(), w.hashes_path())
         for path in set(before) | set(after):
             if path in state_files:
                 continue
-            if path.endswith(".tmp") and path[:-4] in state_files:
-                return "a preview left a temporary state file behind: %s" % path
             if before.get(path) != after.get(path):
                 return "a preview changed %s: %r -> %r" % (path, before.get(path), after.get(path))
         if pr.read_json(w.tracked_path()) != tracked_before:
